@@ -10,6 +10,19 @@ BASELINE_OFF = ("cd /repo && env -u CNES_PANDORA_VERIF /venv/bin/python -m pytes
 
 # id -> (technique, level text, level note, design ref)
 CLAIMED = {
+    "C16": (
+        "Hypothesis-generated GeoTIFFs read through create_dataset_from_inputs vs. a direct restatement (round trip file -> dataset); exhaustive ROI table vs. isel crop (differential)",
+        "Exploration with an exhaustive sub-space: generated rasters (1-3 named bands, six dtypes, nodata present / "
+        "absent / NaN / +-inf / omitted, mask rasters with negative and large values, list or grid disparities, "
+        "classif / segm, with and without georeferencing, optional ROI) are written by the harness and the dataset "
+        "read back is compared sample for sample with the statement (float32 samples, -9999 replacement, no-data / "
+        "invalid / valid mask semantics and mask presence, band names, disparity, classif / segm, attributes, "
+        "coordinates). Every (first,last) x margins ROI on a 6x7 raster, incl. touching and outside windows, must "
+        "equal the isel crop of the full read (coordinates included) or be refused when it misses the image.",
+        "Trusted: rasterio for writing the files, the restatement in pbt/props/c16.py. A multiband pixel counts as "
+        "no-data when any band equals the nodata value.",
+        "DESIGN.md §5 C16",
+    ),
     "C17": (
         "Fault-sequence enumeration: well-formed dataset pairs / input sections x every single and pair of contract violations (exhaustive), plus random larger sets",
         "Exploration with exhaustive sub-spaces: four base classes of well-formed dataset pairs (mono, multiband+mask, "
